@@ -756,6 +756,7 @@ void logDerived(Out& o, const Obj& obj)
         o.obj("derived");
         o.bytes("swVersion", reinterpret_cast<const uint8_t*>(sw.data()), sw.size());
         o.bytes("hwVersion", reinterpret_cast<const uint8_t*>(hw.data()), hw.size());
+        o.kv("voltageCenti", static_cast<long>(t->p->getVoltage() * 100.0f + 0.5f));
         o.end();
     }
     else if (const auto* y = dynamic_cast<const PayloadTypeObj*>(&obj))
